@@ -26,7 +26,7 @@ func (C07) Info() core.Info {
 	return core.Info{
 		Rule:        "shape A: target parameter (n,T1), sometimes further named T1 parameters; 2-5 supplied named T0 values (sometimes all carrying one subtype label) among which each such parameter has a namesake; one converter with exactly one type-only input (T0) producing T1, sometimes with further inputs that are given directly by name, in positional / struct / pointer-struct / built form; shape B: supplied (n,T0); one converter that takes (n,T0) explicitly and one type-only T0->T1 converter; both with 0-4 unrelated distractors, every registration order, random casing of names, additional target parameters, sometimes another converter that also consumes T0, sometimes an earlier call of the same Func without the decisive option. Each world under 12-48 seeded iteration-order schedules. Oracle A: the converter received the token supplied as n and the target received that execution's product. Oracle B: the name-using converter is in the log, the type-only one is not. Non-trivial: always (the competing candidates are the shape); distinct = distinct (world shape, event-log hash)",
 		Assumptions: []string{"the statement covers a single conversion step; chains are not asserted"},
-		Probes:      []string{"c07_shape_a", "c07_shape_b", "c07_a_ge3_candidates", "c07_a_multi_param", "c07_a_subtyped_candidates", "c07_after_earlier_call", "c07_a_converter_with_named_flags", "c07_mixed_case_names", "s1_nonidentity_perms"},
+		Probes:      []string{"c07_shape_a", "c07_shape_b", "c07_a_ge3_candidates", "c07_a_multi_param", "c07_a_subtyped_candidates", "c07_after_earlier_call", "c07_a_converter_with_named_flags", "c07_b_converter_with_named_flags", "c07_mixed_case_names", "s1_nonidentity_perms"},
 		Real:        realComponents,
 		Simulated:   simComponents,
 	}
@@ -134,6 +134,14 @@ func (C07) Gen(r *simrt.RNG, tier string) core.Case {
 		}
 		inF, outF := convForm()
 		c2 := world.Party{InForm: inF, OutForm: outF, In: []world.Slot{{Label: world.Label{Type: T0}}}, Out: []world.Slot{{Label: world.Label{Type: T1}}}, HasErr: inF == world.FormBuilt || r.Bool()}
+		// further inputs given directly by name ("flags") on either converter
+		for ci, cc := range []*world.Party{&c1, &c2} {
+			if cc.InForm != world.FormPositional && cc.InForm != world.FormBuilt && r.Chance(1, 4) {
+				fl := world.Label{Name: []string{"x", "y"}[ci], Type: perm[7+ci]}
+				cc.In = append(cc.In, world.Slot{Label: fl})
+				addArg(world.ArgSpec{Kind: world.ArgNamed, Label: fl, Spell: fl.Name})
+			}
+		}
 		w.Parties = append(w.Parties, c1, c2)
 		for pi := 1; pi <= 2; pi++ {
 			kind := world.ArgConv
@@ -360,10 +368,40 @@ func c07Shape(w world.World) (shape string, n string, T0, T1 int, conv, nameConv
 			a, b = b, a
 			ci, ni = ni, ci
 		}
-		if !okTypeOnly(a) || len(a.In) != 1 || len(b.In) != 1 || b.In[0].Name != n || b.In[0].Sub != "" || b.In[0].Type != a.In[0].Type || len(b.Out) != 1 || b.Out[0].Name != "" || b.Out[0].Sub != "" || b.Once {
+		if !okTypeOnly(a) || typeOnlySlot(b) >= 0 || len(b.Out) != 1 || b.Out[0].Name != "" || b.Out[0].Sub != "" || b.Once {
 			return "", "", 0, 0, 0, 0
 		}
-		T0 = a.In[0].Type
+		T0 = a.In[typeOnlySlot(a)].Type
+		hasNameInput := false
+		for _, pp := range []world.Party{a, b} {
+			for _, fs := range pp.In {
+				if fs.Name == "" {
+					continue
+				}
+				if fs.Name == n && fs.Type == T0 && fs.Sub == "" {
+					hasNameInput = true
+					continue
+				}
+				found := false
+				for _, l := range view.Supplied {
+					if l == fs.Label {
+						found = true
+					}
+				}
+				if !found || fs.Type == T0 || fs.Type == T1 || fs.Sub != "" {
+					return "", "", 0, 0, 0, 0
+				}
+			}
+		}
+		nameIn := false
+		for _, fs := range b.In {
+			if fs.Name == n && fs.Type == T0 {
+				nameIn = true
+			}
+		}
+		if !hasNameInput || !nameIn {
+			return "", "", 0, 0, 0, 0
+		}
 		tot, hasN, typed := countNamed(T0)
 		if tot != 1 || !hasN || typed || T0 == T1 || subSeen[""] == false {
 			return "", "", 0, 0, 0, 0
@@ -515,6 +553,9 @@ func (C07) Run(c core.Case, ctx *core.Ctx) []core.Violation {
 					}
 				}
 			} else {
+				if len(w.Parties[conv].In) > 1 || len(w.Parties[nameConv].In) > 1 {
+					ctx.St.Inc("c07_b_converter_with_named_flags")
+				}
 				if nameExec == nil || convExec != nil {
 					add("type-only-converter-preferred-over-name-using", fmt.Sprintf("schedule %d: name-using converter executed=%v, type-only converter executed=%v", k, nameExec != nil, convExec != nil))
 				} else if len(nameExec.Out) != 1 || tExec.In[0] != nameExec.Out[0] {
